@@ -10,7 +10,8 @@ const char* const PROP_ID = "C03";
 namespace {
 struct Wav { std::string base, ext, dir; refclm::WavSpec spec; std::vector<uint8_t> bytes; std::string path; };
 
-const char* extraTags[] = {"LIST", "cue ", "fact", "smpl", "JUNK", "abcd", "DATA", "Fmt "};
+// incl. tags that differ from "data" / "fmt " in ONE character (first, middle, last): the chunk search must compare whole tags
+const char* extraTags[] = {"LIST", "cue ", "fact", "smpl", "JUNK", "abcd", "DATA", "Fmt ", "Data", "dmt ", "dat_", "fmt_", "dZta"};
 
 std::string gen_base(Tape& t, size_t maxlen = 8) {
 	size_t n = 1 + t.below(maxlen);
@@ -20,7 +21,7 @@ std::string gen_base(Tape& t, size_t maxlen = 8) {
 }
 
 refclm::Chunk gen_chunk(Tape& t) {
-	refclm::Chunk c; memcpy(c.tag, extraTags[t.below(8)], 5);
+	refclm::Chunk c; memcpy(c.tag, extraTags[t.below(13)], 5);
 	c.body = t.bytes(2 * t.below(12));   // even-sized
 	return c;
 }
